@@ -7,18 +7,24 @@ W=/tmp/seed-confirm
 export CARGO_NET_OFFLINE=true CARGO_TARGET_DIR=$W/target RUST_BACKTRACE=0
 [ -d $W ] || git -C /repo worktree add -q --detach $W HEAD
 cd $W && git checkout -q -- . && git clean -fdq -e target
-demo=$(ls "$sd"/demo/*.rs | head -1); t=$(basename "$demo" .rs)
-cp "$demo" tests/
+if [ -d "$sd/demo/tests" ]; then
+  # the demo comes as a tests/ subtree (test file plus feature files)
+  demo=$(ls "$sd"/demo/tests/*.rs | head -1); t=$(basename "$demo" .rs)
+  cp -r "$sd"/demo/tests/. tests/
+else
+  demo=$(ls "$sd"/demo/*.rs | head -1); t=$(basename "$demo" .rs)
+  cp "$demo" tests/
+fi
 cargo test --offline --all-features --test "$t" >/tmp/confirm_$name.head.log 2>&1; head_rc=$?
 git apply "$sd/patch.diff" || { echo "$name: patch does not apply"; exit 1; }
 cargo test --offline --all-features --test "$t" >/tmp/confirm_$name.patched.log 2>&1; patched_rc=$?
-rm -f tests/"$t".rs
+rm -f tests/"$t".rs; git clean -fdq -e target tests
 cargo test --workspace --offline --no-fail-fast >/tmp/confirm_$name.suite.log 2>&1; suite_rc=$?
 git checkout -q -- . && git clean -fdq -e target
 echo "$name: demo@HEAD rc=$head_rc demo@patched rc=$patched_rc suite@patched rc=$suite_rc"
 if [ $head_rc -eq 0 ] && [ $patched_rc -ne 0 ] && [ $suite_rc -eq 0 ]; then
   out=/verif/seeded/$name; mkdir -p $out/demo
-  cp "$sd/patch.diff" $out/; cp "$sd"/demo/*.rs "$sd"/demo/RUN.md $out/demo/ 2>/dev/null
+  cp "$sd/patch.diff" $out/; cp -r "$sd"/demo/. $out/demo/ 2>/dev/null
   cp "$sd/notes.md" $out/notes.md 2>/dev/null
   python3 - "$name" "$prop" "$t" <<PY
 import json,sys,re
